@@ -162,11 +162,16 @@ where
         let max_chroma =
             LuvBounds::from_lightness(color.l.clone()).max_chroma_at_hue(color.hue.clone());
 
-        Hsluv::new(
-            color.hue,
-            color.chroma / max_chroma * T::from_f64(100.0),
-            color.l,
-        )
+        // Black has no chroma to scale and no valid boundaries. This is the
+        // same limit as in the HSLuv reference implementation.
+        let l: f64 = color.l.clone().into();
+        let saturation = if l < 0.00000001 {
+            T::from_f64(0.0)
+        } else {
+            color.chroma / max_chroma * T::from_f64(100.0)
+        };
+
+        Hsluv::new(color.hue, saturation, color.l)
     }
 }
 
